@@ -61,6 +61,8 @@ var (
 	c15TokS, _ = errdef.DefineField[errdef.Redacted[string]]("tok")
 	c15TokI, _ = errdef.DefineField[errdef.Redacted[int]]("tok")
 	c15TokT, _ = errdef.DefineField[errdef.Redacted[c15Sec]]("tok")
+	c15TokA, _ = errdef.DefineField[errdef.Redacted[any]]("tok") // Redact(v) with v of static type any: Value() any
+	c15SxA, _  = errdef.DefineField[c15SX[any]]("sx")
 	c15SxS, _  = errdef.DefineField[c15SX[string]]("sx")
 	c15SxI, _  = errdef.DefineField[c15SX[int]]("sx")
 	c15SxT, _  = errdef.DefineField[c15SX[c15Sec]]("sx")
@@ -246,12 +248,26 @@ func c15Build[T any](sh c15Shape, sec T, ptrs map[uintptr]bool) any {
 	}
 }
 
+func c15HasUnexported(sh c15Shape) bool {
+	if sh.K == "su" {
+		return true
+	}
+	for _, k := range sh.Kids {
+		if c15HasUnexported(k) {
+			return true
+		}
+	}
+	return false
+}
+
 func c15BuildAny(secT string, sh c15Shape, m c15Marker, ptrs map[uintptr]bool) any {
 	switch secT {
 	case "string":
 		return c15Build(sh, m.S, ptrs)
 	case "int":
 		return c15Build(sh, m.I, ptrs)
+	case "any":
+		return c15Build(sh, any(m.S), ptrs)
 	default:
 		return c15Build(sh, c15Sec{A: m.S, B: m.I}, ptrs)
 	}
@@ -263,6 +279,8 @@ func c15TypeNames(secT string) (sx, su, w string) {
 		return reflect.TypeOf(c15SX[string]{}).String(), reflect.TypeOf(c15SU[string]{}).String(), reflect.TypeOf(c15W[string]{}).String()
 	case "int":
 		return reflect.TypeOf(c15SX[int]{}).String(), reflect.TypeOf(c15SU[int]{}).String(), reflect.TypeOf(c15W[int]{}).String()
+	case "any":
+		return reflect.TypeOf(c15SX[any]{}).String(), reflect.TypeOf(c15SU[any]{}).String(), reflect.TypeOf(c15W[any]{}).String()
 	default:
 		return reflect.TypeOf(c15SX[c15Sec]{}).String(), reflect.TypeOf(c15SU[c15Sec]{}).String(), reflect.TypeOf(c15W[c15Sec]{}).String()
 	}
@@ -270,7 +288,7 @@ func c15TypeNames(secT string) (sx, su, w string) {
 
 func c15Payload(secT string) string {
 	switch secT {
-	case "string":
+	case "string", "any":
 		return "(VSecret TString 0%nat)"
 	case "int":
 		return "(VSecret TInt 0%nat)"
@@ -362,6 +380,8 @@ func c15SecOption(cfg c15Cfg, v any) (errdef.Option, string) {
 			return c15TokI(x), "tok"
 		case errdef.Redacted[c15Sec]:
 			return c15TokT(x), "tok"
+		case errdef.Redacted[any]:
+			return c15TokA(x), "tok"
 		}
 	case "typed":
 		switch x := v.(type) {
@@ -371,6 +391,8 @@ func c15SecOption(cfg c15Cfg, v any) (errdef.Option, string) {
 			return c15SxI(x), "sx"
 		case c15SX[c15Sec]:
 			return c15SxT(x), "sx"
+		case c15SX[any]:
+			return c15SxA(x), "sx"
 		}
 	case "details":
 		if m, ok := v.(map[string]any); ok {
@@ -649,6 +671,13 @@ func (env *c15Env) render(s c15Sink) (out string) {
 		if err != nil {
 			return "ERR: " + err.Error()
 		}
+		// the returned buffer is the caller's: a caller that reuses it for the secret must not change
+		// what later marshalings show - the SECOND result is the observation
+		copy(b, env.mark.S)
+		b, err = tm.MarshalText()
+		if err != nil {
+			return "ERR: " + err.Error()
+		}
 		return string(b)
 	case "binary":
 		t, ok := c15Target(side, env.cfg, "value")
@@ -660,6 +689,11 @@ func (env *c15Env) render(s c15Sink) (out string) {
 			return c15NA
 		}
 		b, err := bm.MarshalBinary()
+		if err != nil {
+			return "ERR: " + err.Error()
+		}
+		copy(b, env.mark.S)
+		b, err = bm.MarshalBinary()
 		if err != nil {
 			return "ERR: " + err.Error()
 		}
@@ -717,6 +751,10 @@ func (env *c15Env) render(s c15Sink) (out string) {
 			still = x.Value() == env.mark.I
 		case errdef.Redacted[c15Sec]:
 			still = x.Value() == c15Sec{A: env.mark.S, B: env.mark.I}
+		case errdef.Redacted[any]:
+			still = x.Value() == any(env.mark.S)
+		case *errdef.Redacted[any]:
+			still = x.Value() == any(env.mark.S)
 		case *errdef.Redacted[string]:
 			still = x.Value() == env.mark.S
 		case *errdef.Redacted[int]:
@@ -735,6 +773,8 @@ func (env *c15Env) render(s c15Sink) (out string) {
 				still = still && x.Value() == env.mark.I
 			case errdef.Redacted[c15Sec]:
 				still = still && x.Value() == c15Sec{A: env.mark.S, B: env.mark.I}
+			case errdef.Redacted[any]:
+				still = still && x.Value() == any(env.mark.S)
 			}
 		}
 		return fmt.Sprint(still)
@@ -1038,11 +1078,16 @@ func genC15(r *Rng, tier string) []Case {
 	var out []Case
 	n := 0
 	emit := func(cfg c15Cfg, nrand int) {
+		// the model prints a payload that sits at an UNEXPORTED position (outside the statement) with the type
+		// name of the secret's own type; for Redacted[any] fmt prints the interface type: keep those on string
+		if cfg.SecT == "any" && c15HasUnexported(cfg.Shape) {
+			cfg.SecT = "string"
+		}
 		cfg.Mark1, cfg.Mark2 = c15NewMark(r), c15NewMark(r)
 		out = append(out, c15RunCfg(cfg, c15Sinks(r, nrand))...)
 		n++
 	}
-	for _, secT := range []string{"string", "int", "struct"} {
+	for _, secT := range []string{"string", "int", "struct", "any"} {
 		for _, b := range base {
 			for pos := 0; pos < 3; pos++ {
 				emit(c15Cfg{SecT: secT, Attach: b.attach, Shape: b.shape, Pos: pos, Trace: n%3 == 1, Pub: n % 3}, nrand)
@@ -1060,7 +1105,7 @@ func genC15(r *Rng, tier string) []Case {
 		if sh.K == "red" {
 			attach = "direct"
 		}
-		emit(c15Cfg{SecT: Pick(r, []string{"string", "int", "struct"}), Attach: attach, Shape: sh,
+		emit(c15Cfg{SecT: Pick(r, []string{"string", "int", "struct", "any"}), Attach: attach, Shape: sh,
 			Pos: r.Intn(3), Trace: r.Chance(1, 3), Pub: r.Intn(3)}, nrand)
 	}
 	extraMeta["c15_configurations"] = n
